@@ -309,7 +309,7 @@ def place_str(place, names=None):
 
 
 class State:
-    __slots__ = ("vals", "cmps", "eqs", "discrs", "refs")
+    __slots__ = ("vals", "cmps", "eqs", "discrs", "refs", "aff")
 
     def __init__(self):
         self.vals = {}     # key -> Value
@@ -317,6 +317,7 @@ class State:
         self.eqs = {}      # temp key -> source key (same numeric value)
         self.discrs = {}   # temp key -> place key whose discriminant it holds
         self.refs = {}     # local -> place key it points to (shared or unique borrow of a local place)
+        self.aff = {}      # key -> (parameter index, c): the value is <entry value of that parameter> + c
 
     def copy(self):
         s = State()
@@ -325,10 +326,12 @@ class State:
         s.eqs = dict(self.eqs)
         s.discrs = dict(self.discrs)
         s.refs = dict(self.refs)
+        s.aff = dict(self.aff)
         return s
 
     def same(self, o):
-        return self.vals == o.vals and self.cmps == o.cmps and self.eqs == o.eqs and self.discrs == o.discrs and self.refs == o.refs
+        return (self.vals == o.vals and self.cmps == o.cmps and self.eqs == o.eqs and self.discrs == o.discrs and self.refs == o.refs
+                and self.aff == o.aff)
 
 
 def variant_excluded(st, k):
@@ -368,6 +371,12 @@ def join_state(a, b):
         for k, v in da.items():
             if db.get(k) == v:
                 ds[k] = v
+    for k, v in a.aff.items():
+        if b.aff.get(k) == v or (k not in b.aff and variant_excluded(b, k)):
+            s.aff[k] = v
+    for k, v in b.aff.items():
+        if k not in a.aff and variant_excluded(a, k):
+            s.aff[k] = v
     return s
 
 
@@ -536,7 +545,7 @@ class Fn:
         """forget everything stored under `key` (prefix) and every link that mentions it."""
         n = len(key)
         pref = lambda k: k[:n] == key or (k[0] == "D" and k[1:n + 1] == key)
-        for d in (st.vals, st.eqs, st.discrs, st.cmps):
+        for d in (st.vals, st.eqs, st.discrs, st.cmps, st.aff):
             for k in [k for k in d if pref(k)]:
                 del d[k]
         for k in [k for k, v in st.eqs.items() if pref(v)]:
@@ -563,7 +572,7 @@ class Fn:
                 t = self.local_ty(root)
                 return not (t.startswith("&") and not t.startswith("&mut"))
             return False
-        for d in (st.vals, st.discrs, st.eqs):
+        for d in (st.vals, st.discrs, st.eqs, st.aff):
             for k in [k for k in d if volatile(k)]:
                 del d[k]
         for k in [k for k, v in st.discrs.items() if volatile(v)]:
@@ -619,6 +628,9 @@ class Fn:
         for k, v in list(st.vals.items()):
             if k[:n] == src and len(k) > n:
                 st.vals[dst + k[n:]] = v
+        for k, v in list(st.aff.items()):
+            if k[:n] == src and len(k) > n:
+                st.aff[dst + k[n:]] = v
 
     # -- statements
     def assign(self, st, s):
@@ -634,6 +646,8 @@ class Fn:
             val, sk = self.operand(st, o)
             if sk is not None and dk_res is not None:
                 post.append(("copy", sk))
+                if sk in st.aff:
+                    post.append(("aff", st.aff[sk]))
         elif k == "cast":
             v, sk = self.operand(st, rv["a"])
             to = rv["to"]
@@ -642,6 +656,8 @@ class Fn:
                     val = v
                     if sk is not None:
                         post.append(("eq", sk))
+                        if sk in st.aff:
+                            post.append(("aff", st.aff[sk]))
                 else:
                     val = of_type(to)
             else:
@@ -659,8 +675,11 @@ class Fn:
             elif op.endswith("WithOverflow"):
                 ty = self.key_ty(dk + (("f", 0),)) if dk is not None else None
                 ex = arith(op, a, b, ty)
+                af = self._aff_bin(st, op, ak, a, bk, b)
                 if dk_res is not None:
                     self.kill(st, dk_res)
+                    if af is not None:
+                        st.aff[dk_res + (("f", 0),)] = af
                     if ty and fits(ex, ty):
                         st.vals[dk_res + (("f", 0),)] = ex
                         st.vals[dk_res + (("f", 1),)] = const(0)
@@ -676,6 +695,9 @@ class Fn:
                 ty = self.key_ty(dk) if dk is not None else None
                 ex = arith(op, a, b, ty)
                 val = ex if (ty is None or fits(ex, ty)) else of_type(ty)
+                af = self._aff_bin(st, op, ak, a, bk, b)
+                if af is not None and (ty is None or fits(ex, ty)):
+                    post.append(("aff", af))
         elif k == "un":
             a, ak = self.operand(st, rv["a"])
             if rv["op"] == "Not":
@@ -722,6 +744,8 @@ class Fn:
                     if v is not None and v != TOP:
                         st.vals[base + (("f", i),)] = v
                     if sk is not None:
+                        if sk in st.aff:
+                            st.aff[base + (("f", i),)] = st.aff[sk]
                         self.copy_struct(st, sk, base + (("f", i),))
                         if ("D",) + sk in st.vals:
                             st.vals[("D",) + base + (("f", i),)] = st.vals[("D",) + sk]
@@ -758,10 +782,26 @@ class Fn:
             elif kind == "eq":
                 if x != dk_res:
                     st.eqs[dk_res] = st.eqs.get(x, x)
+            elif kind == "aff":
+                st.aff[dk_res] = x
             elif kind == "cmp":
                 st.cmps[dk_res] = x
             elif kind == "discr":
                 st.discrs[dk_res] = x
+
+    def _aff_bin(self, st, op, ak, a, bk, b):
+        """affine fact of `a op b` when one side is <param> + c and the other a constant"""
+        base = op.replace("WithOverflow", "").replace("Unchecked", "")
+        def cst(v):
+            return v[0] if (v is not None and v[0] is not None and v[0] == v[1]) else None
+        if base == "Add":
+            if ak is not None and ak in st.aff and cst(b) is not None:
+                return (st.aff[ak][0], st.aff[ak][1] + cst(b))
+            if bk is not None and bk in st.aff and cst(a) is not None:
+                return (st.aff[bk][0], st.aff[bk][1] + cst(a))
+        if base == "Sub" and ak is not None and ak in st.aff and cst(b) is not None:
+            return (st.aff[ak][0], st.aff[ak][1] - cst(b))
+        return None
 
     # -- calls
     def call(self, st, bi, t):
@@ -772,15 +812,24 @@ class Fn:
         argv = [self.operand(st, a) for a in args]
         summary = None          # {proj: Value}
         handled = False
+        aff_out = None          # {proj: (param of THIS function, c)} agreed by all callees
         if callees:
             rets = []
             for ce in callees:
                 f2 = self.prog.fns.get(ce["key"])
+                self._ext_aff = {}
                 if f2 is not None:
                     self.prog.note_call(self, bi, f2, argv, st)
                     rets.append(f2.ret if f2.ret is not None else {})
+                    a1 = {}
+                    for proj, (pi, c) in (getattr(f2, "ret_aff", None) or {}).items():
+                        if pi < len(argv) and argv[pi][1] is not None and argv[pi][1] in st.aff and not f2.is_closure:
+                            q, d = st.aff[argv[pi][1]]
+                            a1[proj] = (q, d + c)
                 else:
                     rets.append(self.external(st, ce, args, argv))
+                    a1 = dict(self._ext_aff)
+                aff_out = a1 if aff_out is None else {k: v for k, v in aff_out.items() if a1.get(k) == v}
             # join of the callees' return summaries
             keys = set(rets[0].keys())
             for r in rets[1:]:
@@ -809,6 +858,8 @@ class Fn:
                             st.vals[("D",) + dest + proj[1:]] = v
                         else:
                             self.setval(st, dest + proj, v)
+            for proj, af in (aff_out or {}).items():
+                st.aff[dest + proj] = af
         else:
             self.kill_memory(st)
         return st
@@ -835,6 +886,9 @@ class Fn:
                 is_opt = "core::option::Option" in full.split(" as ")[0]
                 src_ok = ("dc", 1) if is_opt else ("dc", 0)
                 n = len(a0k) + 1
+                for k, v in st.aff.items():
+                    if k[:len(a0k)] == a0k and len(k) > len(a0k) and k[len(a0k)] == src_ok:
+                        self._ext_aff[(("dc", 0),) + k[n:]] = v
                 for k, v in st.vals.items():
                     if k[:len(a0k)] == a0k and len(k) > len(a0k) and k[len(a0k)] == src_ok:
                         out[(("dc", 0),) + k[n:]] = v
@@ -905,6 +959,9 @@ class Fn:
     # -- fixpoint
     def entry_state(self):
         st = State()
+        for i in range(self.argc):
+            if self.local_ty(i + 1) in INT:
+                st.aff[(i + 1,)] = (i, 0)
         if self.param_in:
             for i, v in enumerate(self.param_in):
                 if v is not None and v != TOP:
@@ -1122,14 +1179,19 @@ class Fn:
                         r[("D",) + k[2:]] = v
                 rs = State()
                 rs.vals = {((0,) + k if k[:1] != ("D",) else ("D", 0) + k[1:]): v for k, v in r.items()}
+                rs.aff = {k: v for k, v in st.aff.items() if k[0] == 0}
                 ret = rs if ret is None else join_state(ret, rs)
         out = {}
+        self.ret_aff = {}
         if ret is not None:
             for k, v in ret.vals.items():
                 if k[0] == 0:
                     out[k[1:]] = v
                 elif k[0] == "D" and len(k) >= 2 and k[1] == 0:
                     out[("D",) + k[2:]] = v
+            for k, v in ret.aff.items():
+                if k[0] == 0:
+                    self.ret_aff[k[1:]] = v
         return out
 
     # -- description of operands for keys / reports
